@@ -4,4 +4,11 @@ let () =
   | [_; "opt"; path] -> Engine_opt.main path
   | [_; "parse"; path] -> Engine_parse.main path
   | [_; "geom"; path] -> Engine_geom.main path
+  | [_; "libm"] ->
+      (* the same values through the OCaml runtime (the oracle side of the correspondence) *)
+      let mn x y = if Float.is_nan x then y else if Float.is_nan y then x else Float.min x y in
+      let mx x y = if Float.is_nan x then y else if Float.is_nan y then x else Float.max x y in
+      let v = [ exp neg_infinity; exp infinity; exp nan; exp 0.; exp (-0.); mn nan 1.; mn infinity 1.; mx 0. nan;
+                infinity ** 0.5; 0. ** 0.5; acos 1.; acos (-1.); sin 0.; cos 0. ] in
+      print_endline (String.concat " " (List.map Util.hex_of_float v))
   | _ -> prerr_endline "usage: driver <engine> <casefile>"; exit 2
